@@ -73,7 +73,7 @@ def main():
     # never park a goroutine that does: whoever wants the lock next would block outside a
     # park point and the simulator could not proceed) ----------------
     s = rd("sync/mutex.go")
-    s = sub_once(s, "func (m *Mutex) Lock() {\n\tm.mu.Lock()\n}", "func (m *Mutex) Lock() {\n\tm.mu.Lock()\n\truntime_verifLockDelta(1)\n}", "sync Mutex.Lock")
+    s = sub_once(s, "func (m *Mutex) Lock() {\n\tm.mu.Lock()\n}", "func (m *Mutex) Lock() {\n\tif verifMutexLock(m) {\n\t\treturn\n\t}\n\tm.mu.Lock()\n\truntime_verifLockDelta(1)\n}", "sync Mutex.Lock")
     s = sub_once(s, "func (m *Mutex) TryLock() bool {\n\treturn m.mu.TryLock()\n}", "func (m *Mutex) TryLock() bool {\n\tok := m.mu.TryLock()\n\tif ok {\n\t\truntime_verifLockDelta(1)\n\t}\n\treturn ok\n}", "sync Mutex.TryLock")
     s = sub_once(s, "func (m *Mutex) Unlock() {\n\tm.mu.Unlock()\n}", "func (m *Mutex) Unlock() {\n\truntime_verifLockDelta(-1)\n\tm.mu.Unlock()\n}", "sync Mutex.Unlock")
     wr("sync/mutex.go", s)
@@ -211,10 +211,47 @@ SYNC_VERIFSIM = r'''// Code generated by /verif/rtpatch; simulation builds only.
 
 package sync
 
-import _ "unsafe"
+import (
+	"runtime"
+	"sync/atomic"
+	"unsafe"
+)
 
 // Implemented in package runtime (linkname push).
 func runtime_verifLockDelta(d int64)
+
+// VerifMutexHooks lets a simulator own the mutexes that selected code locks (IsTarget says,
+// by the PC of the caller of Lock, which calls are meant): every attempt to take such a
+// mutex is preceded by a scheduling point (Before; attempt counts from 0), and an attempt
+// that finds the mutex taken goes back to the scheduling point instead of blocking inside
+// the runtime. So who gets a contended lock is the simulator's decision, a goroutine can be
+// descheduled while it holds a lock and asks for another, and nobody ever blocks where a
+// synctest bubble could not see it.
+type VerifMutexHooks struct {
+	IsTarget func(pc uintptr) bool
+	Before   func(m unsafe.Pointer, pc uintptr, attempt int)
+}
+
+var VerifMutex atomic.Pointer[VerifMutexHooks]
+
+func verifMutexLock(m *Mutex) bool {
+	h := VerifMutex.Load()
+	if h == nil {
+		return false
+	}
+	var pcs [1]uintptr
+	if runtime.Callers(3, pcs[:]) == 0 || !h.IsTarget(pcs[0]) {
+		return false
+	}
+	for attempt := 0; ; attempt++ {
+		h.Before(unsafe.Pointer(m), pcs[0], attempt)
+		if m.mu.TryLock() {
+			break
+		}
+	}
+	runtime_verifLockDelta(1)
+	return true
+}
 '''
 
 SYSCALL_FUNCS = ["openat", "read", "write", "pread", "pwrite", "Close", "Renameat", "unlinkat",
